@@ -9,6 +9,7 @@ import (
 
 	"github.com/hashicorp/hcl-lang/lang"
 	"github.com/hashicorp/hcl/v2"
+	"github.com/hashicorp/hcl/v2/hclsyntax"
 
 	"verif/internal/explore"
 	"verif/internal/gen"
@@ -264,6 +265,21 @@ func c12Safety(cx *explore.Ctx, q run.Query, r run.Result) {
 	if r.Panic != nil {
 		return
 	}
+	// exactness on files that parse cleanly (cached per world)
+	if _, done := cx.Store["clean"]; !done {
+		cx.Store["clean"] = false
+		if f := cx.W.Ctx(0).Files[q.File]; f != nil {
+			if body, ok := f.Body.(*hclsyntax.Body); ok {
+				if _, pd := hclsyntax.ParseConfig(cx.Src, q.File, hcl.InitialPos); !pd.HasErrors() {
+					cx.Store["clean"] = true
+					cx.Store["body"] = body
+				}
+			}
+		}
+	}
+	if cx.Store["clean"].(bool) && q.Kind == run.Hover {
+		c12Exact(cx, q, r, cx.Store["body"].(*hclsyntax.Body))
+	}
 	hd, ok := r.Val.(*lang.HoverData)
 	if !ok || hd == nil {
 		return
@@ -344,6 +360,14 @@ func c13Structural(cx *explore.Ctx, q run.Query, r run.Result) {
 				add("token:unsorted", fmt.Sprintf("token %d %s starts before token %d %s", i, fmtRange(t.Range), i-1, fmtRange(p.Range)))
 			} else if p.Range.End.Byte > t.Range.Start.Byte {
 				add("token:overlap", fmt.Sprintf("token %d %s %s overlaps token %d %s %s", i-1, p.Type, fmtRange(p.Range), i, t.Type, fmtRange(t.Range)))
+			}
+		}
+	}
+	// exactness on files the generator fully understands (no parse errors)
+	if f := cx.W.Ctx(0).Files[q.File]; f != nil {
+		if body, ok := f.Body.(*hclsyntax.Body); ok {
+			if _, pd := hclsyntax.ParseConfig(cx.Src, q.File, hcl.InitialPos); !pd.HasErrors() {
+				c13Exact(cx, q, toks, body)
 			}
 		}
 	}
